@@ -486,6 +486,11 @@ def gen_rtsci(rng, tier):
                     e = IMAX - 8 * max(1, len(hx(s))) - rng.randrange(0, 100)
             d = sci_shown_digits(kind, b, s)
             p = rng.choice([None, None, 0, 1, max(0, d - 2), max(0, d - 1), d, d + 2])
+            if rng.random() < 0.3:
+                # zero flag + width: the padding zeros stand behind sign / 0x and the text still reads back to the value shown
+                wv = rng.choice([0, 3, d + 4, d + 7, d + 12, 40])
+                yield Case("f.rtsci", [kind, "none" if p is None else dec(p), rng.choice(["0", "+0"]), farg(b, s, e, max(1, ndigits(s, b)), mode), dec(wv)],
+                           nontrivial=True)
             yield Case("f.rtsci", [kind, "none" if p is None else dec(p), rng.choice("+-"), farg(b, s, e, max(1, ndigits(s, b)), mode)],
                        nontrivial=True)
         # zero
@@ -566,6 +571,18 @@ def gen_extreme(rng, tier):
                 if s == 0:
                     s = 1
                 yield Case("f.with_base_prec", [dec(nb), dec(rng.choice([1, 3, 8, 64])), farg(b, s, e, prec or 1, rng.choice(MODES))], nontrivial=True)
+    # with_base_and_precision between bases that are NOT powers of one another, exponent 0..38 (multiplication branch: the cost does
+    #    not grow with the precision), extreme precisions
+    for (b, nb) in [(x, y) for (x, y) in PAIRS if not is_pow_related(x, y)]:
+        for p in (EXT_U if not quick else rng.sample(EXT_U, 4)):
+            if p == 0:
+                continue
+            s, _, prec = rand_float(rng, b, tier)
+            e = rng.choice([0, 0, 1, 5, 17, 37, 38])
+            s, e = norm(s, e, b)
+            if abs(e) > THRESH:
+                e = 0
+            yield Case("f.with_base_prec", [dec(nb), dec(p), farg(b, s, e, prec or 1, rng.choice(MODES))], nontrivial=True)
     # source precision (usize) of with_base between power-related bases: `precision * n` resp. `precision / n`
     for (b, nb) in [(x, y) for (x, y) in PAIRS if is_pow_related(x, y)]:
         k = max(ilog_pair(b, nb), 1)
@@ -778,7 +795,7 @@ RULE = ("parse: the documented grammar as a generator for bases {2,3,8,10,16,36}
         "IEEE: special bit patterns and random f32/f64. Infinities (+/-) through every formatting trait of every base "
         "(Display, LowerExp, UpperExp, Debug and pretty Debug of FBig and Repr, Binary/Octal/LowerHex/UpperHex where defined) with and "
         "without precision, width, fill, alignment, `+`, zero flag. Round 5: scientific text printed and read back (op f.rtsci: every scientific trait of every base, "
-        "precision none/0/1/d-2/d-1/d/d+2 in shown digits, `+`, all modes, random / all-nines / half-way significands, exponents up to +-5000 and the E1 list); "
+        "precision none/0/1/d-2/d-1/d/d+2 in shown digits, `+`, zero flag with widths 0..40, all modes, random / all-nines / half-way significands, exponents up to +-5000 and the E1 list); "
         "E1 extremes: exponents 0, +-1, +-63..65, +-128, +-2^31, +-(2^32-1), +-2^32(+k), +-2^62, isize::MAX-k, isize::MIN+k (k <= 130) as exponent of the printed "
         "float (scientific traits) and as scale of literals (0..3 fraction digits, trailing zero digits, plain and 0x form, first values outside isize); usize "
         "precisions 0, 1, 63..65, 128, 2^31, 2^32-1, 2^32+k, 2^63(+-1), usize::MAX-k for with_precision, the source Context and with_base_and_precision "
@@ -833,7 +850,7 @@ REFINED = [
     "executed against the real code by op f.rtsci, whose specification side is specRound (builder-float's executable rounding over Rat)",
     "Display text = specification text (round 5): fmt_round without a width (any precision option, `+`) prints exactly displaySpec — the exact positional "
     "expansion without a precision, the fixed-point text of roundInt m (x*B^k) with precision k — for every repr whose zero has exponent 0 "
-    "(display_text_is_spec); the run-time comparison of the two texts in the driver is now a theorem",
+    "(display_text_is_spec; display_text_is_spec_normalised: in particular for everything Repr::new returns); the run-time comparison of the two texts in the driver is now a theorem",
     "displaySpec <-> ModeSpec (round 5): roundInt m (N/D) — the executable definition of the modes used by displaySpec and specRound — satisfies "
     "ModeSpec m N D for all integers N, D > 0 (round_int_meets_mode_spec), ModeSpec names exactly one integer (mode_spec_unique), hence the integer "
     "displaySpec prints is precRounded, the integer fmt_round prints (display_spec_rounds_like_model)",
@@ -890,7 +907,7 @@ THEOREMS = ["Dashu.Props.C08." + t for t in [
     "scientific_print_parse", "scientific_markers_accepted", "lower_upper_exp_parse_back", "radix_trait_parse_back",
     "round_int_meets_mode_spec", "mode_spec_unique", "display_spec_rounds_like_model", "with_precision_digits",
     "scale_markers_regenerated", "fmt_trait_table_regenerated", "convert_base_same_base",
-    "padded_scientific_print_parse", "with_base_contract", "display_text_is_spec"]]
+    "padded_scientific_print_parse", "with_base_contract", "display_text_is_spec", "display_text_is_spec_normalised"]]
 EXPLANATION = ("Partial. Proved for all bases, modes, precisions and operands: the three exact-evaluation branches of base conversion "
                "round the exact value (contract of C03: exact iff representable, else < 1 ulp on the mode's side, truthful flag); "
                "the documented with_base precision; exactness of the f32/f64 import; the literal parser equals the documented grammar on every byte "
